@@ -222,7 +222,7 @@ def judge(case):
 
 
 def plan(tier, seed):
-    n = 1600 if tier == "quick" else 30000
+    n = 16000 if tier == "quick" else 200000
     return [{"kind": "cases", "n": n // 16, "seed": common.seed_for(PROP, tier, seed, i)}
             for i in range(16)]
 
